@@ -171,7 +171,24 @@ def run_case(case, PROP):
 
     contracts.attach_codec()
     contracts.drain()
-    run = harness.execute(sp, want_taps=False)
+    # naive date-times mean local time of the process: vary the zone (POSIX TZ strings, no tzdata needed)
+    import os
+    import time
+    tz = r.choice(['UTC', 'UTC', 'IST-5:30', 'EST5EDT,M3.2.0,M11.1.0', 'NZST-12NZDT,M9.5.0,M4.1.0/3'])
+    old_tz = os.environ.get('TZ')
+    os.environ['TZ'] = tz
+    time.tzset()
+    bump('tz-' + tz.split(',')[0])
+    try:
+        run = harness.execute(sp, want_taps=False)
+        if run.data is not None:
+            oracle.ensure_expected(run)     # expected instants are computed under the same zone
+    finally:
+        if old_tz is None:
+            os.environ.pop('TZ', None)
+        else:
+            os.environ['TZ'] = old_tz
+        time.tzset()
     rejected = [(sp['ops'][i]['op'], o[1], o[2][:60]) for i, o in enumerate(run.built.outcomes) if o[0] != 'ok'] \
         if run.built and run.built.error is None else []
     for rj in rejected:
